@@ -71,6 +71,16 @@ def cases(tier: str, rng: random.Random) -> List[Case]:
     for v, x in G.instance_cases(rng):
         for m in ("sync", "async"):
             out.append(std_case(v, x, m, tag="a:instances"))
+    # maps whose key validator changes the key: a value failure is filed under the key as it occurs in the input
+    STRPK = ("Scalar", ("KStr",), None, [("Strip",)], [("PNotBlank",)], [])
+    DECK = ("Scalar", ("KDecimal",), Some(("CoDecimal",)), [], [], [])
+    INTV_ = ("Scalar", ("KInt",), None, [], [("PMin", G.I(0), False)], [])
+    for kv_, x_ in ((STRPK, ("VDict", [P(G.S(" k "), G.S("bad")), P(G.S("j"), G.I(-1))])), (STRPK, ("VDict", [P(G.S(" k "), G.I(1)), P(G.S("k"), G.I(-2))])),
+                    (DECK, ("VDict", [P(G.S("1.5"), G.I(-1)), P(G.I(2), G.S("x"))])), (DECK, ("VDict", [P(G.S("1"), G.I(-1)), P(G.I(1), G.I(-1))])),
+                    (STRPK, ("VDict", [P(G.S("  "), G.I(-1)), P(G.S(" a"), G.I(-1))]))):
+        for m in ("sync", "async"):
+            out.append(std_case(("MapV", kv_, INTV_, [], [], None), x_, m, tag="a:map-keys"))
+            out.append(std_case(("ListV", ("MapV", kv_, INTV_, [], [], None), [], [], None), ("VList", [x_]), m, tag="a:map-keys"))
     # distinct but equal (and hashable) user-written validators in several slots / keys / trees: each error names its own
     U0, U4 = ("UserV", N(0), False), ("UserV", N(4), False)
     for v_, x_ in ((("NTupleV", [U0, U0, U4, U4], None, Some(("CoTupleOrList",))), ("VTuple", [G.S("a"), G.S("b"), G.I(1), G.I(2)])),
